@@ -263,6 +263,39 @@ func smtFile(hyps []*Term, goal *Term, opts string, getModel bool, extra string)
 	for _, k := range sortedKeys(syms) {
 		fmt.Fprintf(&b, "(declare-fun |%s| () %s)\n", k, syms[k])
 	}
+	// constant strings that occur in the query: their length and (for short ones) their bytes
+	if used["strlen"] || used["strbytes"] {
+		seen := map[int64]bool{}
+		note := func(t *Term) {
+			t.walk(func(x *Term) {
+				if x.Op == "int" && x.Val != nil && x.Val.IsInt64() {
+					if _, ok := constStrings[x.Val.Int64()]; ok {
+						seen[x.Val.Int64()] = true
+					}
+				}
+			})
+		}
+		for _, h := range hyps {
+			note(h)
+		}
+		note(goal)
+		var ids []int64
+		for id := range seen {
+			ids = append(ids, id)
+		}
+		sort.Slice(ids, func(i, j int) bool { return ids[i] < ids[j] })
+		for _, id := range ids {
+			str := constStrings[id]
+			if used["strlen"] {
+				fmt.Fprintf(&b, "(assert (= (strlen %d) %d))\n", id, len(str))
+			}
+			if used["strbytes"] && len(str) <= 16 {
+				for i := 0; i < len(str); i++ {
+					fmt.Fprintf(&b, "(assert (= (select (strbytes %d) %d) %d))\n", id, i, str[i])
+				}
+			}
+		}
+	}
 	for _, h := range hyps {
 		if h.IsTrue() {
 			continue
@@ -334,6 +367,9 @@ func runSolver(ctx context.Context, sp solverSpec, file string, timeoutS int) (s
 }
 
 var smtDir string
+
+// constStrings: id -> text of the string constants met so far (ids are the integers that stand for them)
+var constStrings = map[int64]string{0: ""}
 
 func obFileName(name string) string {
 	r := strings.NewReplacer("/", "_", "*", "", "(", "", ")", "", " ", "_", ":", "_", "#", "_")
